@@ -24,6 +24,8 @@ pub mod c24;
 pub mod c30;
 pub mod c33;
 pub mod c34;
+pub mod c05;
+pub mod c20;
 pub mod c36;
 pub mod c22;
 pub mod c25;
@@ -34,6 +36,8 @@ pub mod c32;
 
 pub fn registry() -> Vec<(&'static str, fn() -> Property)> {
     vec![
+        ("C20", c20::property),
+        ("C05", c05::property),
         ("C34", c34::property),
         ("C33", c33::property),
         ("C30", c30::property),
